@@ -194,6 +194,8 @@ class Zeroconf(QuietLogger):
         self.record_manager = RecordManager(self)
 
         self._notify_futures: Set[asyncio.Future] = set()
+        # Goodbye broadcasts of services that were unregistered one by one
+        self._goodbye_tasks: Set[asyncio.Future] = set()
         self.loop: Optional[asyncio.AbstractEventLoop] = None
         self._loop_thread: Optional[threading.Thread] = None
 
@@ -490,9 +492,12 @@ class Zeroconf(QuietLogger):
             withdrawn.update(info.get_address_and_nsec_records())
         self.out_queue.async_remove_records(withdrawn)
         self.out_delay_queue.async_remove_records(withdrawn)
-        return asyncio.ensure_future(
+        task = asyncio.ensure_future(
             self._async_broadcast_service(info, _UNREGISTER_TIME, 0, broadcast_addresses)
         )
+        self._goodbye_tasks.add(task)
+        task.add_done_callback(self._goodbye_tasks.discard)
+        return task
 
     def generate_unregister_all_services(self) -> Optional[DNSOutgoing]:
         """Generate a DNSOutgoing goodbye for all services and remove them from the registry."""
@@ -531,6 +536,10 @@ class Zeroconf(QuietLogger):
             # may have completed, and announced its service, while we were
             # waiting between them: withdraw it as well
             out = self.generate_unregister_all_services()
+        # Goodbyes that are still being sent for services unregistered one
+        # by one must be completed before the caller closes the sockets
+        if self._goodbye_tasks:
+            await asyncio.wait(self._goodbye_tasks)
 
     def unregister_all_services(self) -> None:
         """Unregister all registered services.
